@@ -1062,7 +1062,7 @@ theorem good_exec {name : Asset → String} {w w' : World} {op : Op} {out : Out}
   | factory s f m =>
     simp only [exec, bind_ok_iff, pure_ok_iff, Prod.mk.injEq] at h
     obtain ⟨w1, h1, rfl, _⟩ := h
-    exact good_facExec (fun a0 a1 req c np nl e => (hf s f a0 a1 req c np nl (by rw [e])).2) h1
+    exact good_facExec (fun a0 a1 req c np nl e => (hf s f a0 a1 req c np nl (by rw [e])).2.1) h1
 
 /-! ### C20 / C05W: the exported statements -/
 
